@@ -413,6 +413,7 @@ func c17Run(e *Env) {
 			e.Violate("C17.R4", "route-variables-differ:default-handler", "path %q went to the default handler with route variables %v (nothing matched, so there are none)", d.path, d.vars)
 		}
 		consistent := false
+		staleDefault := false
 		multi := false
 		for _, s := range cands {
 			best := 0
@@ -429,8 +430,13 @@ func c17Run(e *Env) {
 				multi = true
 			}
 			if d.pattern == "" {
-				if len(matching) == 0 {
+				// "the default handler exactly when nothing matches": in one of the router's states during the call nothing
+				// matched the path AND the handler that ran was that state's default handler
+				if len(matching) == 0 && s.def == d.handler {
 					consistent = true
+				}
+				if len(matching) == 0 && s.def != d.handler {
+					staleDefault = true
 				}
 			} else if id, ok := s.routes[d.pattern]; ok && len(d.pattern) == best && (id == d.handler || len(cands) > 1) {
 				consistent = true
@@ -453,6 +459,9 @@ func c17Run(e *Env) {
 			rule, sig := "C17.R2", "not-a-longest-matching-route"
 			if d.pattern == "" {
 				rule, sig = "C17.R3", "default-although-a-route-matches"
+				if staleDefault {
+					sig = "default-handler-of-another-moment"
+				}
 			}
 			if len(cands) > 1 {
 				sig += ":concurrent"
